@@ -168,7 +168,9 @@ func execute(sc Scenario, k int) (run, fsState, error) {
 		args = append(args, "-kill", strconv.Itoa(k))
 	}
 	args = append(args, "--", cli)
-	args = append(args, sc.Args...)
+	for _, a := range sc.Args {
+		args = append(args, strings.ReplaceAll(a, "{{WD}}", work)) // the working directory spelled as an absolute path
+	}
 	cmd := exec.Command(pk, args...)
 	cmd.Dir = work
 	cmd.Env = append(os.Environ(), "HOME="+parent, "XDG_CONFIG_HOME="+parent)
@@ -229,7 +231,7 @@ func roles(sc Scenario) (inputs map[string]bool, inplace bool) {
 		}
 	}
 	_ = out
-	return inputs, sc.Shape == "inplace-file" || sc.Shape == "inplace-via-link" || sc.Shape == "inplace-tree" || sc.Shape == "inplace-tree-pool" || sc.Shape == "bundle-onto-input"
+	return inputs, sc.Shape == "inplace-file" || sc.Shape == "inplace-file-abs" || sc.Shape == "inplace-long-name" || sc.Shape == "sync-onto-self" || sc.Shape == "inplace-via-link" || sc.Shape == "inplace-tree" || sc.Shape == "inplace-tree-pool" || sc.Shape == "bundle-onto-input"
 }
 
 func invariant(sc Scenario, orig, final, frozen fsState) error {
@@ -292,15 +294,20 @@ func checkScenario(sc Scenario) (boundaries int, interior int, err error) {
 	K := full.n
 	// the complete run itself: for a single file minified onto itself the result is the library's output (or the
 	// original when the library rejects it); otherwise "the complete new output" would be whatever the run left
-	if sc.Shape == "inplace-file" || sc.Shape == "inplace-via-link" {
-		p := sc.Files[0].Path
-		mt := map[string]string{"js": "application/javascript", "css": "text/css", "html": "text/html", "json": "application/json", "svg": "image/svg+xml", "xml": "text/xml"}[filepath.Ext(p)[1:]]
-		want, lerr := mk.RunM(mk.Full(mk.Opts{}), mt, append([]byte{}, orig[p]...))
-		if lerr != nil {
-			want = orig[p]
-		}
-		if !bytes.Equal(final[p], want) {
-			return K, 0, fmt.Errorf("after the complete run %s holds %d bytes that are not the library's output (%d bytes) for it\n--- command: minify %s\n--- syscalls:\n%s", p, len(final[p]), len(want), strings.Join(sc.Args, " "), full.log)
+	if _, inplace := roles(sc); inplace && sc.Shape != "bundle-onto-input" {
+		ins, _ := roles(sc)
+		for p := range ins {
+			want := orig[p]
+			if mt, ok := map[string]string{".js": "application/javascript", ".css": "text/css", ".html": "text/html", ".json": "application/json", ".svg": "image/svg+xml", ".xml": "text/xml"}[filepath.Ext(p)]; ok {
+				if w, lerr := mk.RunM(mk.Full(mk.Opts{}), mt, append([]byte{}, orig[p]...)); lerr == nil {
+					want = w
+				}
+			}
+			// a file the run could not process (a backup that cannot be made, say) keeps its original bytes
+			strict := sc.Shape == "inplace-file" || sc.Shape == "inplace-via-link" || sc.Shape == "inplace-file-abs" // nothing stands in the way: the new content it is
+			if !bytes.Equal(final[p], want) && (strict || !bytes.Equal(final[p], orig[p])) {
+				return K, 0, fmt.Errorf("after the complete run %s holds %d bytes that are neither the library's output (%d bytes) nor the original (%d bytes)\n--- command: minify %s\n--- syscalls:\n%s", p, len(final[p]), len(want), len(orig[p]), strings.Join(sc.Args, " "), full.log)
+			}
 		}
 	}
 	// nothing lost
@@ -334,7 +341,7 @@ func checkScenario(sc Scenario) (boundaries int, interior int, err error) {
 }
 
 func genScenario(t *rapid.T) Scenario {
-	kinds := []string{"js", "css", "html", "json", "svg", "xml", "bad-js", "empty", "js", "css"}
+	kinds := []string{"js", "css", "html", "json", "svg", "xml", "bad-js", "empty", "js", "css", "txt"}
 	sizes := []int{0, 200, 200, 3000, 64<<10 + 1, 1 << 20}
 	n := rapid.IntRange(1, 4).Draw(t, "nfiles")
 	var files []File
@@ -356,7 +363,20 @@ func genScenario(t *rapid.T) Scenario {
 	// a bystander that no invocation touches
 	files = append(files, File{Path: "bystander.txt", Kind: "txt", Size: 100, Mode: 0o644})
 	sc := Scenario{Files: files}
-	sc.Shape = rapid.SampledFrom([]string{"inplace-file", "inplace-file", "inplace-via-link", "inplace-tree", "inplace-tree-pool", "separate-file", "out-dir", "bundle", "bundle-onto-input", "sync"}).Draw(t, "shape")
+	sc.Shape = rapid.SampledFrom([]string{"inplace-file", "inplace-file", "inplace-via-link", "inplace-tree", "inplace-tree-pool", "separate-file", "out-dir", "bundle", "bundle-onto-input", "sync", "sync-onto-self", "sync-onto-self", "inplace-file-abs", "inplace-long-name"}).Draw(t, "shape")
+	if sc.Shape == "inplace-long-name" {
+		// <name>.bak is longer than a file name may be: the backup cannot be made, the run has to fail and leave the file alone
+		files[0].Path = filepath.Join(filepath.Dir(files[0].Path), strings.Repeat("n", 255-len(filepath.Ext(files[0].Path))-rapid.IntRange(0, 3).Draw(t, "shorter"))+filepath.Ext(files[0].Path))
+		sc.Files = files
+	}
+	if files[0].Kind == "txt" && sc.Shape != "sync" && sc.Shape != "sync-onto-self" && sc.Shape != "inplace-tree" && sc.Shape != "inplace-tree-pool" && sc.Shape != "out-dir" {
+		files[0].Kind = "js"
+		files[0].Path = strings.TrimSuffix(files[0].Path, ".txt") + ".js"
+	}
+	if sc.Shape == "sync-onto-self" {
+		files = append(files, File{Path: "src/notes.txt", Kind: "txt", Size: 300, Mode: 0o644})
+		sc.Files = files
+	}
 	first := files[0].Path
 	switch sc.Shape {
 	case "inplace-file":
@@ -387,6 +407,13 @@ func genScenario(t *rapid.T) Scenario {
 		sc.Args = append([]string{"-q", "-b", "-o", dst}, same...)
 	case "sync":
 		sc.Args = []string{"-v", "-r", "--sync", "-o", "mirror/", "src/"}
+	case "sync-onto-self":
+		// the tree synchronised onto itself, the output spelled as an absolute path
+		sc.Args = []string{"-v", "-r", "--sync", "-o", "{{WD}}/src/", "src/"}
+	case "inplace-file-abs":
+		sc.Args = []string{"-q", "-o", "{{WD}}/" + first, first}
+	case "inplace-long-name":
+		sc.Args = []string{"-q", "-o", first, first}
 	}
 	return sc
 }
